@@ -5,8 +5,9 @@ EXTENDS QuicLifetime
 Ms(n) == <<n, 0>>
 MkCfg(l, p, k, h) == [L |-> Ms(l), P |-> Ms(p), K |-> Ms(k), H |-> Ms(h)]
 
-\* quick: one PTO value; idle timeouts on both sides, absent on either side, keep-alive on / off
-MCCfgsQ == { MkCfg(6, 4, 0, 5), MkCfg(0, 4, 1, 0) }
+\* quick: one PTO value; idle timeouts on both sides, absent on either or both sides, shorter than
+\* 3 PTO, keep-alive on / off, with and without handshake timeout
+MCCfgsQ == { MkCfg(6, 4, 0, 5), MkCfg(0, 4, 1, 0), MkCfg(2, 0, 1, 5), MkCfg(0, 0, 1, 0) }
 MCPTOsQ == { [pto |-> Ms(1), ptop |-> Ms(1), rto |-> Ms(1)] }
 MCStepsQ == { Ms(1) }
 
